@@ -32,6 +32,7 @@ package composition
 //@   witness controlled[j<6] = metav1.GetControllerOf(&rl.Items[j]) != nil && metav1.GetControllerOf(&rl.Items[j]).UID == comp.GetUID()
 //@   witness orphan[j<6] = metav1.GetControllerOf(&rl.Items[j]) == nil
 //@   invariant [C12:no-failed-write-so-far] !writeFailed
+//@   invariant [C12:a-revision-stands-for-the-current-content-only-by-its-content-hash] existingRev > 0 ==> exists j :: 0 <= j && j < done && (&rl.Items[j]).GetLabels()[v1.LabelCompositionHash] == substr(currentHash, 0, 63)
 //@   invariant [C12:latest-bounds-our-revisions] forall j :: 0 <= j && j < len(rl.Items) && OURS(&rl.Items[j]) ==> rl.Items[j].Spec.Revision <= latestRev + 1
 //@ site (client.Writer).Update(_, _, $o)
 //@   witness n = len(rl.Items)
